@@ -19,19 +19,19 @@ def fmtTensor (t : Tensor Rat) : String :=
   let head := " ".intercalate ((t.shape.length :: t.shape).map toString)
   if t.data.size = 0 then head else s!"{head} {fmtList t.data.toList}"
 
-def fmtExcept (r : Except String (Tensor Rat)) : String :=
+private def fmtExcept (r : Except String (Tensor Rat)) : String :=
   match r with
   | .ok t => fmtTensor t
   | .error e => e
 
 /-- `bspline.weights s d` → the `(s, 4)` table, row-major. -/
-def bsWeights : Reader String := do
+private def bsWeights : Reader String := do
   let s ← nat
   let d ← nat
   pure (fmtList ((weightTable (α := Rat) s d).flatMap W4.toList))
 
 /-- `bspline.value d x` → `cubic_bspline_value(x, d)` or `none`. -/
-def bsValue : Reader String := do
+private def bsValue : Reader String := do
   let d ← nat
   let x ← rat
   match cubicBSplineValue x d with
@@ -39,13 +39,13 @@ def bsValue : Reader String := do
   | none => pure "none"
 
 /-- `bspline.basis d x` → the SPEC basis function (derivative d) at x. -/
-def bsBasis : Reader String := do
+private def bsBasis : Reader String := do
   let d ← nat
   let x ← rat
   pure (fmtRat (basis d x))
 
 /-- `bspline.kernel1d s d` → dense kernel `cubic_bspline1d(s, d)`. -/
-def bsKernel1d : Reader String := do
+private def bsKernel1d : Reader String := do
   let s ← nat
   let d ← nat
   match kernel1dValues (α := Rat) s d with
@@ -53,7 +53,7 @@ def bsKernel1d : Reader String := do
   | .error e => pure e
 
 /-- `bspline.ctrl_size m s`. -/
-def bsCtrlSize : Reader String := do
+private def bsCtrlSize : Reader String := do
   let m ← int
   let s ← int
   match ctrlSizeChecked m s with
@@ -61,7 +61,7 @@ def bsCtrlSize : Reader String := do
   | .error e => pure e
 
 /-- `bspline.ctrl_sizes D m… s…` (sequence forms after Python's broadcasting) → sizes or error. -/
-def bsCtrlSizes : Reader String := do
+private def bsCtrlSizes : Reader String := do
   let D ← nat
   let m ← listOf D int
   let s ← listOf D int
@@ -71,7 +71,7 @@ def bsCtrlSizes : Reader String := do
   | .error e => pure e
 
 /-- `bspline.ctrl_grid d grid m… s…` → control point grid. -/
-def bsCtrlGrid : Reader String := do
+private def bsCtrlGrid : Reader String := do
   let d ← nat
   let g ← grid d
   let m := (← listOf d nat).toArray
@@ -79,7 +79,7 @@ def bsCtrlGrid : Reader String := do
   pure (fmtGrid (controlPointGrid g (fun i => m[i.val]!) (fun i => s[i.val]!)))
 
 /-- `bspline.eval tensor D strideX… derivX… transpose hasShape [shape…]`. -/
-def bsEval : Reader String := do
+private def bsEval : Reader String := do
   let t ← tensorR
   let D ← nat
   let stride ← listOf D nat
@@ -90,14 +90,14 @@ def bsEval : Reader String := do
   pure (fmtExcept (evaluateCubicBSpline t stride deriv sh tr))
 
 /-- `bspline.subdivide tensor k dims…` (spatial dims, 0 = x). -/
-def bsSubdivide : Reader String := do
+private def bsSubdivide : Reader String := do
   let t ← tensorR
   let k ← nat
   let dims ← listOf k nat
   pure (fmtExcept (subdivideCubicBSpline t dims))
 
 /-- `bspline.ffd_u params D sizeX… strideX… transpose`. -/
-def bsFfdU : Reader String := do
+private def bsFfdU : Reader String := do
   let t ← tensorR
   let D ← nat
   let size ← listOf D nat
@@ -107,7 +107,7 @@ def bsFfdU : Reader String := do
   else pure (fmtExcept (ffdUpdate t size stride tr))
 
 /-- `bspline.ffd_refine params D curSizeX… newSizeX… strideX…`. -/
-def bsFfdRefine : Reader String := do
+private def bsFfdRefine : Reader String := do
   let t ← tensorR
   let D ← nat
   let cur ← listOf D nat
@@ -116,7 +116,7 @@ def bsFfdRefine : Reader String := do
   pure (fmtExcept (ffdGridRefine t cur new stride))
 
 /-- `bspline.deriv tensor D strideX… orderX… spacingX…`. -/
-def bsDeriv : Reader String := do
+private def bsDeriv : Reader String := do
   let t ← tensorR
   let D ← nat
   let stride ← listOf D nat
